@@ -98,7 +98,7 @@ func (m *Model) computeStoreSets() {
 						}
 					case ssa.CallInstruction:
 						c := in.Common()
-						cal := c.StaticCallee()
+						cal := Unthunk(c.StaticCallee())
 						for ai, a := range c.Args {
 							if !m.IsDecPtr(a.Type()) {
 								continue
@@ -284,7 +284,7 @@ func (m *Model) LoadSet(fn *ssa.Function, k int) []int {
 							}
 						case ssa.CallInstruction:
 							c := in.Common()
-							cal := c.StaticCallee()
+							cal := Unthunk(c.StaticCallee())
 							if cal == nil || len(cal.Blocks) == 0 {
 								continue
 							}
